@@ -26,14 +26,24 @@ is displayed (`get_docstring`), the targets its `L{…}` resolve to, the targets
 signature / decorator links, the resolved targets of the class-signature expressions, the public
 constructors.  Name resolution itself is the `Names` layer (C04/C07), C3 the `Mro` layer (C05).
 
+The model follows the code as fixed by cb98646 (a superseded duplicate `'x 0'` is not visible:
+`isVisible` requires the object to be its parent's `contents` entry), aaed9bd (`taglink` renders the plain
+label when the target is not visible: `taglinkGuard`), 1da744b (`format_docstring` renders under
+`switch_context(obj)`), 97be2c0 (`findRootClasses` appends a root class to the list already stored under
+its name), 07382d3 (`reparent` updates `parentMod` of what is inside a moved class; `modul` is input).
+`requests s` = every `taglink` call / listing entry the page code makes; `emits s` = what is left of them
+after the guard. The pre-fix transcriptions live at the end of the file as `…Old` definitions, used only
+by the labelled historical counterexamples of PdProps/C11.lean and C12.lean.
+
 Objects are numbered parents first.  An id outside the table reads as `default` (a hidden package):
 the protocol front end refuses such requests.  Loops that follow `parent`, `contents`, `subclasses`
 have fuel (number of objects); `WF` (below) makes the fuel sufficient, a cyclic table would make
 Python recurse for ever.
 
 Not modelled (noted in notes/C11.md): the compact module list of `moduleSummary` (> 50 submodules),
-letter anchors of nameIndex.html, docstring tables of contents, zope.interface rows, `extra_info`
-other than the constructor note, `--html-subject`.
+letter anchors of nameIndex.html, docstring tables of contents, what docutils writes inside a docstring
+(footnotes: c3f754a, 7e81765 are covered by the crawl oracle only), zope.interface rows, `extra_info` other
+than the constructor note, `--html-subject`.
 -/
 import PdModel.Privacy
 
